@@ -235,6 +235,7 @@ typedef struct http_txn {
 	nni_http_res    *res;
 	nni_http_chunks *chunks;
 	http_txn_state   state;
+	nng_err          canceled; // cancel/time-out of the user aio
 	nni_reap_node    reap;
 } http_txn;
 
@@ -291,7 +292,14 @@ http_txn_cb(void *arg)
 	nni_http_chunk *chunk = NULL;
 
 	nni_mtx_lock(&http_txn_lk);
-	if ((rv = nni_aio_result(&txn->aio)) != NNG_OK) {
+	rv = nni_aio_result(&txn->aio);
+	if ((rv == NNG_OK) && (txn->canceled != NNG_OK)) {
+		// The cancel (or time-out) of the transaction arrived when
+		// this step had just completed: aborting the idle aio did
+		// nothing, so it must be honoured here, before the next step.
+		rv = txn->canceled;
+	}
+	if (rv != NNG_OK) {
 		http_txn_finish_aios(txn, rv);
 		nni_mtx_unlock(&http_txn_lk);
 		http_txn_fini(txn);
@@ -390,6 +398,7 @@ http_txn_cancel(nni_aio *aio, void *arg, nng_err rv)
 	http_txn *txn = arg;
 	nni_mtx_lock(&http_txn_lk);
 	if (nni_aio_list_active(aio)) {
+		txn->canceled = rv;
 		nni_aio_abort(&txn->aio, rv);
 	}
 	nni_mtx_unlock(&http_txn_lk);
